@@ -169,7 +169,7 @@ caret_parenthesis = Parser.regex(r"\^[$_=[\]\\{}|:/<>?]")
 
 local_symbol_literal = Parser.regex(r"[0-9][a-z_0-9$.]*")
 symbol_literal = Parser.regex(r"[a-z_$][a-z_0-9$.]*")
-instruction_name = Parser.regex(r"\.?[a-z_][a-z_0-9]*")
+instruction_name = Parser.regex(r"\.?[a-z_][a-z_0-9$.]*")
 
 
 @Parser
